@@ -81,6 +81,7 @@ class Explorer:
         self.defs = {}
         self._scope = 0
         self._deferred = []
+        self.inst_points = []  # time indices at which universally quantified facts (reductions) are instantiated
 
     def fresh_name(self, base):
         return f"{base}!{next(self.fresh_counter)}"
@@ -758,6 +759,21 @@ def _defint(kind, x):
     key = (kind, x.get_id())
     if key in ex.defs:
         return ex.defs[key][0]
+    # normalisations (sound identities) that let syntactically different arguments share constants:
+    #   f(if c then a else b) = if c then f(a) else f(b);   floor/ceil(a + to_real(i)) = floor/ceil(a) + i
+    import os as _os
+    _norm = not _os.environ.get("PYVC_NO_DEFINT_NORM")
+    if _norm and z3.is_app(x) and x.decl().kind() == z3.Z3_OP_ITE:
+        cnd, a, b = x.children()
+        r = z3.If(cnd, _defint(kind, a), _defint(kind, b))
+        ex.defs[key] = (r, x)
+        return r
+    if _norm and kind in ("floor", "ceil"):
+        ip, rest = _split_integer_part(x)
+        if ip is not None and not (z3.is_int_value(ip) and ip.as_long() == 0):
+            r = z3.simplify(ip + _defint(kind, rest))
+            ex.defs[key] = (r, x)
+            return r
     c = z3.Int(f"{kind}!{len(ex.defs)}")
     ex.defs[key] = (c, x)
     cr = z3.ToReal(c)
@@ -765,6 +781,9 @@ def _defint(kind, x):
         ex.assume(z3.And(cr <= x, x < cr + 1))
     elif kind == "ceil":
         ex.assume(z3.And(cr - 1 < x, x <= cr))
+        # link with the floor of the same term (redundant but saves the solver a case analysis per use)
+        f = _defint("floor", x)
+        ex.assume(z3.And(z3.Or(c == f, c == f + 1), (c == f) == (x == z3.ToReal(f))))
     elif kind == "round":
         f = _defint("floor", x)
         d = x - z3.ToReal(f)
@@ -905,7 +924,14 @@ def _monomials(e):
     for a in adds:
         coef = None
         fs = []
-        parts = a.children() if (z3.is_app(a) and a.decl().kind() == z3.Z3_OP_MUL) else [a]
+        parts = []
+        stack = [a]
+        while stack:  # flatten nested products: z3 prints -1*dt*s but builds Mul(-1, Mul(dt, s))
+            q = stack.pop()
+            if z3.is_app(q) and q.decl().kind() == z3.Z3_OP_MUL:
+                stack.extend(reversed(q.children()))
+            else:
+                parts.append(q)
         for p in parts:
             if z3.is_rational_value(p) or z3.is_int_value(p):
                 coef = p if coef is None else z3.simplify(coef * p)
@@ -913,6 +939,24 @@ def _monomials(e):
                 fs.append(p)
         out.append((coef, fs))
     return out
+
+
+def remove_factor(term, g):
+    """term / g  for a term whose every monomial contains the factor g (None when one does not)."""
+    total = None
+    for coef, fs in _monomials(term):
+        rest = list(fs)
+        for i, f in enumerate(rest):
+            if f.get_id() == g.get_id():
+                rest.pop(i)
+                break
+        else:
+            return None
+        t = coef if coef is not None else (z3.RealVal(1) if z3.is_real(term) else z3.IntVal(1))
+        for f in rest:
+            t = t * f
+        total = t if total is None else total + t
+    return z3.simplify(total) if total is not None else None
 
 
 def cancel_positive_factor(d):
